@@ -282,6 +282,16 @@ def gen_cases(tier: str, seed: int):
                        "max_delta_h": 1000.0, "criterion": crit, "frac": frac,
                        "spec": {"sys": "euclidean", "dim": 2, "seed": 50 + k % 4, "linear": "aniso", "metric": "none", "conv": {}},
                        "ispec": {"int": "leapfrog", "tight": True}}
+    # directed family: Metropolis transitions on table doubles whose integrator fails on some edges (a failure on the first
+    # step of a trajectory must still leave exp(-H) invariant on (position, momentum, direction))
+    for j in range({"quick": 12, "thorough": 120}[tier]):
+        case = {"transition": ["static", "random"][j % 2], "source": "double", "flavour": ["failures", "mixed"][(j // 2) % 2],
+                "seed": [seed, 8000 + j]}
+        if case["transition"] == "static":
+            case["n_step"] = 1 + j % 3
+        else:
+            case["n_step_range"] = [1, 2 + j % 3]
+        yield case
     for i in range(n):
         tkind = ["static", "random", "multinomial", "slice", "multinomial", "slice"][i % 6]
         source = ["real", "double", "real", "double", "direct"][i % 5]
